@@ -64,6 +64,10 @@ func (workerConn *WorkerConn) Init(ipPort string, selfId []byte, consensusHandle
 		}
 
 		if bytes.Equal(method, methodSendToManager) {
+			if len(body) < netIdSize {
+				workerConn.logger.Errorf("received too short body, wsHeader: %v,body:%v", wsHeader, body)
+				return
+			}
 			body = body[netIdSize:]
 		}
 
